@@ -3,6 +3,7 @@ package stanza
 import (
 	"encoding/xml"
 	"errors"
+	"strconv"
 	"sync"
 )
 
@@ -204,8 +205,15 @@ func (SMFailed) Name() string {
 func (smf *SMFailed) UnmarshalXML(d *xml.Decoder, start xml.StartElement) error {
 	smf.XMLName = start.Name
 
-	// According to https://xmpp.org/rfcs/rfc3920.html#def we should have no attributes aside from the namespace
-	// which we don't use internally
+	// XEP-0198: <failed/> may carry the number of stanzas the server has handled
+	for _, attr := range start.Attr {
+		if attr.Name.Local == "h" {
+			if v, err := strconv.ParseUint(attr.Value, 10, 32); err == nil {
+				h := uint(v)
+				smf.H = &h
+			}
+		}
+	}
 
 	// decode inner elements
 	for {
